@@ -4,14 +4,17 @@ import NdnModel.CertTime
     `C16 cert <keyName hexlist> <issuer hex> <version hex> <pubkey hex> <(five signer-info values)> <issue> <reserved:sighex>`
        → `ok W=<wire> C=<covered> N=<name list> | ok P=<values>` | `err <PyErr>` | `skip year<1000`
     `C16 times <issue>` → `ok <notBefore hex> <notAfter hex>` | `err <PyErr>` | `skip year<1000`
-       <issue> = `derive:<ord>,<sec>,<us>,<offset minutes | n>,<expire_sec>` | `req:<ord>,<sec>,<us>` | `self:<ord>,<sec>,<us>`
-       (the model computes the calendar fields of the validity period itself)
+       <issue> = `derive:<ord>,<sec>,<us>,<fold 0|1>,<offset seconds | n>,<other offset seconds>,<expire_sec>`
+                 | `req:<ord>,<sec>,<us>` | `self:<ord>,<sec>,<us>`
+       (the model computes the calendar fields of the validity period itself; the tzinfo of an aware start_time is
+        the zone that reports <offset> for the start reading with that fold and <other offset> for every other
+        reading)
     calendar stream (instant <inst> = `o:<ord>,<sec>,<us>` | `f:<y>,<mo>,<d>,<h>,<mi>,<s>,<us>`):
     `C16 cal ymd2ord <y>,<mo>,<d>` → `ok <ord>` | `err ValueError`
     `C16 cal ord2ymd <n>` → `ok <y>,<mo>,<d>` | `err ValueError`
     `C16 cal range <lo> <count>` → `ok <y>,<mo>,<d0>,<k>;…`: `_ord2ymd` of every ordinal lo .. lo+count-1, runs of
        consecutive days of one month written once (year, month, first day, number of days)
-    `C16 cal add <inst> <n>` / `cal utc <inst> <offset minutes>` / `cal addyears <inst> <k>`
+    `C16 cal add <inst> <n>` / `cal utc <inst> <offset seconds>` / `cal addyears <inst> <k>`
        → `ok <ord>,<sec>,<us>;<y>,<mo>,<d>,<h>,<mi>,<s>` | `err <PyErr>`
     `C16 cal fmt <inst>` → `ok <hex>` | `skip year<1000` -/
 namespace Ndn.Drv.C16
@@ -29,10 +32,13 @@ def readIssue (s : String) : Option Issue :=
   match s.splitOn ":" with
   | ["derive", r] =>
     match r.splitOn "," with
-    | [o, sec, us, off, n] => do
+    | [o, sec, us, fold, off, off2, n] => do
       let t ← mkInstant (← o.toInt?) (← sec.toInt?) (← us.toInt?)
-      let off ← (if off == "n" then some none else off.toInt?.map some : Option (Option Int))
-      pure (.derive t off (← n.toInt?))
+      let fold ← (if fold == "0" then some false else if fold == "1" then some true else none)
+      let off2 ← off2.toInt?
+      let zone ← (if off == "n" then some none
+        else off.toInt?.map (fun o => some (fun w f => if w = t ∧ f = fold then o else off2)) : Option (Option Zone))
+      pure (.derive t fold zone (← n.toInt?))
     | _ => none
   | ["req", r] =>
     match intList r with
